@@ -53,13 +53,13 @@ REQUIRED_COUNTERS = {
               "stacked_adjoint_checked": 12000, "stacked_normal_matrix_checked": 170,
               "ugla_mean_checked": 100, "ugla_cov_entries_checked": 3500, "ugla_affine_checked": 200,
               "normal_draws_scripted": 5000, "cgls_solves_observed": 5000, "reuse_histories_checked": 40,
-              "rto_lite_directions_checked": 60, "inputs_unchanged_checked": 150},
+              "rto_lite_directions_checked": 60, "inputs_unchanged_checked": 150, "far_state_draws_checked": 60},
     "thorough": {"rto_mean_checked": 1300, "rto_cov_entries_checked": 60000, "rto_affine_checked": 2500,
                  "rto_state_independence_checked": 4000, "rto_chain_draws_checked": 4000,
                  "stacked_adjoint_checked": 150000, "stacked_normal_matrix_checked": 1400,
                  "ugla_mean_checked": 700, "ugla_cov_entries_checked": 25000, "ugla_affine_checked": 1400,
                  "normal_draws_scripted": 40000, "cgls_solves_observed": 40000, "reuse_histories_checked": 240,
-                 "rto_lite_directions_checked": 400, "inputs_unchanged_checked": 1000},
+                 "rto_lite_directions_checked": 400, "inputs_unchanged_checked": 1000, "far_state_draws_checked": 600},
 }
 BUDGET_S = {"quick": 240.0, "thorough": 2400.0}
 
@@ -341,6 +341,28 @@ def cases(tier, seed):
                     c = _rto(i, IFACES[(si + fi + rep) % 2], n, [lik], prior, build=r.choice(["joint", "direct"])); i += 1
                     c["lite"] = True; c["layout"] = LAY[(si + fi + rep + 1) % 4]
                     out.append(c)
+        # F: far current states - norm 1e3..1e9 times the size of the draw - at several solver tolerances, reached through
+        #    the constructor (x0 / initial_point), set_state / attribute assignment, the legacy step(x), or a preceding step
+        FAR = [(1e-4, 3), (1e-6, 4), (1e-6, 5), (1e-9, 5), (1e-9, 7), (1e-12, 7), (1e-12, 9)]     # (tol, log10 F): F >= 10/sqrt(tol), F*tol <= 0.1
+        VIA = {"exp": ["init", "set_state", "attr", "preceding"], "legacy": ["init", "attr", "step", "preceding"]}
+        for ti, (tolv, lf) in enumerate(FAR):
+            for ii, iface in enumerate(IFACES):
+                for vi in range(2 if tier == "quick" else 4):
+                    via = VIA[iface][(ti + ii + rep + 2 * vi) % 4]
+                    n = r.randint(2, 7)
+                    liks = [_lik(r, n, m=r.randint(2, 8)) for _ in range(r.choice([1, 1, 2]))]
+                    out.append({"kind": "far", "i": i, "sampler": "rto", "iface": iface, "via": via, "tol": tolv, "logF": lf, "n": n, "liks": liks,
+                                "prior": {"kind": "gaussian", "form": r.choice(FORMS), "mean": r.choice(["vector", "scalar", "zero"])}}); i += 1
+                via = [v for v in VIA[iface] if v != "preceding"][(ti + ii + rep) % 3]
+                N = r.randint(3, 7)
+                out.append({"kind": "far", "i": i, "sampler": "ugla", "iface": iface, "via": via, "tol": tolv, "logF": lf, "pd": 1, "N": N, "n": N,
+                            "bc": BCS[(ti + ii + rep) % 3], "m": N + r.randint(2, 5), "model": r.choice(MODELS), "noise": r.choice(FORMS),
+                            "beta": r.choice([1e-5, 1e-3, 1e-1])}); i += 1
+            n = r.randint(2, 6)
+            iface = IFACES[(ti + rep) % 2]
+            out.append({"kind": "far", "i": i, "sampler": "regrto", "iface": iface, "via": [v for v in VIA[iface] if v != "preceding"][(ti + rep) % 3],
+                        "tol": tolv, "logF": min(lf, 6), "n": n, "liks": [_lik(r, n, m=r.randint(n, n + 4), noise=r.choice(["cov_scalar", "prec_vector", "sqrtprec_scalar", "cov_full"]))],
+                        "prior": {"kind": "reggaussian", "form": "cov_scalar", "mean": r.choice(["vector", "zero"])}}); i += 1
     n_rand = 240 if tier == "quick" else 2400
     for _ in range(n_rand):
         out.append(_random_rto(r, i)); i += 1
@@ -369,6 +391,9 @@ def cases(tier, seed):
     return out
 
 def _cfg(case):
+    if case["kind"] == "far":
+        return {"sampler": {"rto": "LinearRTO", "ugla": "UGLA", "regrto": "RegularizedLinearRTO"}[case["sampler"]], "iface": case["iface"],
+                "via": case["via"], "tol": case["tol"], "logF": case["logF"]}
     if case["kind"] == "reuse":
         base = {"history": case["mutate"], "stage2": case["stage2"], "post2": case["post2"], "iface1": case["iface1"]}
         if case["sampler"] == "ugla":
@@ -1360,8 +1385,198 @@ def _run_reuse_ugla(case, ctx):
     ctx.note("posterior_mean_moved_in_sd", float(np.max(np.abs(r2[0] - r1[0]))) / sd)
     ctx.nontrivial()
 
+# --------------------------------------------------------------------------- far current states
+
+def _scripted_call(fn, e):
+    feed = Feed(e)
+    with Scripted(normal=feed):
+        with SolverWatch() as w:
+            out = fn()
+    return out, feed, w
+
+def _far_transition(cuqi, case, make, far, e, near, e_pre=None):
+    """One transition that starts at the far state, reached the way the descriptor says. `make(x_init)` builds a sampler.
+    Returns (start state actually used, next state)."""
+    iface, via = case["iface"], case["via"]
+    flat = None if e is None else np.asarray(e, dtype=float).ravel()
+    if via == "preceding":                       # a first (scripted) step lands far away, the judged step starts there
+        s = make(near.copy())
+        both = np.concatenate([e_pre, np.zeros_like(e_pre) if flat is None else flat])
+        if iface == "exp":
+            s.current_point = near.copy()
+            def run():
+                n0 = len(s._samples); s.sample(2)
+                X = np.asarray(s.get_samples().samples)[:, n0:n0 + 2]; return X
+        else:
+            s.x0 = near.copy()
+            def run():
+                return np.asarray(s.sample(3).samples)[:, 1:3]
+        X, feed, w = _scripted_call(run, both)
+        return np.array(X[:, 0], dtype=float), np.array(X[:, 1], dtype=float), w, s
+    if iface == "exp":
+        if via == "init":
+            s = make(far.copy())
+        else:
+            s = make(near.copy())
+            if via == "set_state":
+                st = s.get_state(); st["state"]["current_point"] = far.copy(); s.set_state(st)
+            else:
+                s.current_point = far.copy()
+        def run():
+            s.step(); return np.asarray(s.current_point, dtype=float).ravel()
+    else:
+        s = make(far.copy() if via == "init" else near.copy())
+        if via == "attr":
+            s.x0 = far.copy()
+        if via == "step":
+            def run():
+                return np.asarray(s.step(far.copy()), dtype=float).ravel()
+        else:
+            def run():
+                return np.asarray(s.sample(2).samples, dtype=float)[:, -1]
+    x, feed, w = _scripted_call(run, flat)
+    return far, np.array(x, dtype=float), w, s
+
+def _far_judge(ctx, cfg, H, x_start, x_star, x, tol, w, what):
+    """CGLS's documented stopping rule: |A^T(b - A x_k)| <= tol |A^T(b - A x_0)|, i.e. |H (x_k - x*)| <= tol |H (x_0 - x*)|.
+    The draw from a far start must honour it (10x slack) up to the rounding floor of iterates of size |x_0|."""
+    ctx.count("far_state_draws_checked")
+    r0 = float(np.linalg.norm(H @ (x_start - x_star)))
+    rk = float(np.linalg.norm(H @ (x - x_star)))
+    floor = 1e3 * EPS * float(np.linalg.norm(H, 2)) * (float(np.linalg.norm(x_start)) + float(np.linalg.norm(x_star))) * np.sqrt(len(x))
+    ctx.note("far_residual_ratio", rk / max(r0, 1e-300))
+    if w.diverged():
+        ctx.count("far_state_solver_norm_exit")
+    if not np.all(np.isfinite(x)) or rk > 10.0 * tol * r0 + floor:
+        ctx.violation("far_state_draw_off", cfg,
+                      detail=f"{what}: |H(x-x*)| = {rk:.3g} > 10*tol*|H(x0-x*)| + floor = {10 * tol * r0 + floor:.3g} (tol {tol:g}, |x0| {np.linalg.norm(x_start):.3g}, "
+                             f"|x*| {np.linalg.norm(x_star):.3g}, solver calls {[(c['k'], c['maxit']) for c in w.calls][:3]})")
+
+def _run_far(case, ctx):
+    import cuqi
+    cfg = _cfg(case)
+    rs = core.np_rng(ctx.seed, PROPERTY, core.canon(case))
+    tol, F = float(case["tol"]), 10.0 ** case["logF"]
+    kind = case["sampler"]
+    if kind == "ugla":
+        n, N1, bc, m, beta = case["n"], case["N"], case["bc"], case["m"], case["beta"]
+        Dm = S.diff_op(N1, bc, 1, 1)
+        A, model = _gen_model(cuqi, rs, case["model"], m, n, cuqi.geometry.Continuous1D(N1))
+        fam, val, P = _gen_form(rs, case["noise"], m, float(rs.choice([0.05, 0.3, 1.0])))
+        scale_b = float(rs.choice([0.05, 0.3, 2.0]))
+        d = A @ rs.standard_normal(n) + rs.standard_normal(m)
+        rho = max(float(np.linalg.norm(np.linalg.lstsq(A, d, rcond=None)[0])), 1.0)
+        u = rs.standard_normal(n); far = F * rho * u / np.linalg.norm(u)
+        xm, C, H, rhs = G.ugla_local(A, P, d, Dm, np.zeros(n), scale_b, beta, far)
+        if float(np.linalg.cond(H)) > COND_MAX:
+            ctx.inconclusive("far-state UGLA problem too ill conditioned"); return
+        Ntot = m + Dm.shape[0]
+        def make(x_init):
+            x = cuqi.distribution.LMRF(0, scale_b, bc_type=bc, geometry=cuqi.geometry.Continuous1D(N1), name="x")
+            y = cuqi.distribution.Gaussian(model @ x, **{fam: val}, name="y")
+            post = cuqi.distribution.JointDistribution(x, y)(y=d.copy())
+            if case["iface"] == "exp":
+                sm = cuqi.experimental.mcmc.UGLA(post, initial_point=x_init, beta=beta, maxit=10 * Ntot + 200, tol=tol); sm.initialize(); return sm
+            return cuqi.sampler.UGLA(post, x0=x_init, beta=beta, maxit=10 * Ntot + 200, tol=tol)
+        near = rs.standard_normal(n)
+        kindo, res = core.outcome(_far_transition, cuqi, case, make, far, None, near, refusal=())
+        if kindo != "value":
+            ctx.count("far_state_draws_checked")
+            ctx.violation("far_state_step_raised", {**cfg, "exc": type(res).__name__}, detail=f"a transition from a current state of norm {np.linalg.norm(far):.3g} (draw scale {rho:.3g}) raised {res!r}")
+            ctx.nontrivial(); return
+        x_start, x, w, sm = res
+        _far_judge(ctx, cfg, H, x_start, xm, x, tol, w, "UGLA zero perturbation")
+        ctx.nontrivial(); return
+
+    # ---- LinearRTO / RegularizedLinearRTO
+    n = case["n"]
+    gcase = {**case, "prior": ({**case["prior"], "kind": "gaussian"} if kind == "regrto" else case["prior"])}
+    prob = _gen_rto_problem(cuqi, gcase, rs)
+    if prob is None or (kind == "regrto" and prob["cond"] > 50):
+        prob = None
+        for _ in range(8):
+            q = _gen_rto_problem(cuqi, gcase, rs)
+            if q is not None and (kind != "regrto" or q["cond"] <= 50):
+                prob = q; break
+        if prob is None:
+            ctx.inconclusive("generator could not produce a suitable far-state problem"); return
+    xm, H = prob["xm"], prob["H"]
+    sd = float(np.sqrt(np.max(np.diag(prob["C"]))))
+    rho = max(float(np.linalg.norm(xm)), sd * np.sqrt(n))
+    u = rs.standard_normal(n); far = F * rho * u / np.linalg.norm(u)
+    near = xm + sd * rs.standard_normal(n)
+    Ntot = sum(l["m"] for l in case["liks"]) + 3 * n
+    if kind == "rto":
+        def make(x_init):
+            x, ys = _build_dists(cuqi, prob)
+            post = _build_posterior(cuqi, "direct", x, ys, prob["ds_lib"])
+            return _make_rto(cuqi, case["iface"], post, x_init, {"maxit": 10 * Ntot + 200, "tol": tol})
+        probe = make(near.copy())
+        Mm = _check_stacked(ctx, cfg, probe, n, H, prob["rhs"], rs)
+        if Mm is None:
+            ctx.inconclusive("stacked operator not observable"); return
+        e_pre = Mm @ (far - xm)                                 # x(e) = xm + H^-1 M^T e  ->  exactly the far state
+        for j in range(2):
+            g = None if j == 0 else rs.standard_normal(Mm.shape[0])
+            x_star = xm if g is None else xm + np.linalg.solve(H, Mm.T @ g)
+            kindo, res = core.outcome(_far_transition, cuqi, case, make, far, g, near, e_pre, refusal=())
+            if kindo != "value":
+                ctx.count("far_state_draws_checked")
+                ctx.violation("far_state_step_raised", {**cfg, "exc": type(res).__name__}, detail=f"a transition from a current state of norm {np.linalg.norm(far):.3g} (draw scale {rho:.3g}) raised {res!r}")
+                break
+            x_start, x, w, sm = res
+            if case["via"] == "preceding" and not np.linalg.norm(x_start - far) <= 1e-6 * np.linalg.norm(far):
+                ctx.inconclusive("preceding step did not land on the intended far state"); break
+            _far_judge(ctx, cfg, H, x_start, x_star, x, tol, w, "LinearRTO " + ("zero perturbation" if g is None else "random perturbation"))
+        ctx.nontrivial(); return
+
+    # RegularizedLinearRTO (nonnegativity): proximal gradient without momentum is a contraction with factor q = 1 - step*lambda_min,
+    # so the documented stop |x_{k+1}-x_k| <= abstol guarantees |x_k - x*| <= abstol / (step*lambda_min)
+    from scipy.optimize import nnls
+    lam = np.linalg.eigvalsh(H)
+    step = 0.99 / float(lam[-1])
+    abstol = tol * rho
+    fam, val = prob["prior_kw"], prob["prior_val"]
+    def make(x_init):
+        x = cuqi.implicitprior.RegularizedGaussian(prob["mu_lib"], **{fam: val}, constraint="nonnegativity", geometry=n, name="x")
+        ys = [cuqi.distribution.Gaussian(model @ x, **{f2: v2}, name=f"y{j}") for j, (model, (f2, v2)) in enumerate(zip(prob["mods"], prob["noise"]))]
+        post = cuqi.distribution.JointDistribution(x, *ys)(**{f"y{j}": dd.copy() for j, dd in enumerate(prob["ds"])})
+        kw = dict(maxit=200000, stepsize=step, abstol=abstol, adaptive=False)
+        if case["iface"] == "exp":
+            sm = cuqi.experimental.mcmc.RegularizedLinearRTO(post, initial_point=x_init, **kw); sm.initialize(); return sm
+        sm = cuqi.sampler.RegularizedLinearRTO(post, x0=x_init, **kw)
+        sm.maxit = 200000                                        # the legacy constructor pins maxit=100
+        return sm
+    kindo, res = core.outcome(make, near.copy(), refusal=_BUILD_REFUSALS)
+    if kindo == "refused":
+        ctx.refused("build:regrto", res); ctx.count("build_refused"); return
+    if kindo == "crashed":
+        raise res
+    # reference: non-negative least squares of the whitened stacked system (any square roots give the same objective)
+    Ls = [np.linalg.cholesky(Pj).T for Pj in prob["Ps"]] + [np.linalg.cholesky(prob["P0"]).T]
+    Mref = np.vstack([L @ A for L, A in zip(Ls[:-1], prob["As"])] + [Ls[-1]])
+    bref = np.concatenate([L @ dd for L, dd in zip(Ls[:-1], prob["ds"])] + [Ls[-1] @ prob["mu"]])
+    x_star, _ = nnls(Mref, bref, maxiter=50 * n + 200)
+    class _W:                                                     # FISTA is not CGLS: nothing to watch
+        calls = []
+        def diverged(self): return []
+    kindo, res = core.outcome(_far_transition, cuqi, case, make, np.abs(far), None, np.abs(near), refusal=())
+    ctx.count("far_state_draws_checked")
+    if kindo != "value":
+        ctx.violation("far_state_step_raised", {**cfg, "exc": type(res).__name__}, detail=f"a transition from a current state of norm {np.linalg.norm(far):.3g} raised {res!r}")
+        ctx.nontrivial(); return
+    x_start, x, w, sm = res
+    bound = 10.0 * abstol / (step * float(lam[0])) + 1e3 * EPS * float(np.linalg.norm(far)) * float(lam[-1] / lam[0])
+    ctx.note("far_reg_err_over_bound", float(np.linalg.norm(x - x_star)) / bound)
+    if not np.all(np.isfinite(x)) or np.linalg.norm(x - x_star) > bound:
+        ctx.violation("far_state_draw_off", cfg, detail=f"RegularizedLinearRTO zero perturbation from |x0|={np.linalg.norm(far):.3g}: |x - nnls| = {np.linalg.norm(x - x_star):.3g} > {bound:.3g} "
+                                                         f"(abstol {abstol:.3g}, step*lambda_min {step * lam[0]:.3g})")
+    ctx.nontrivial()
+
 def run_case(case, ctx):
-    if case["kind"] == "reuse":
+    if case["kind"] == "far":
+        _run_far(case, ctx)
+    elif case["kind"] == "reuse":
         (_run_reuse_rto if case["sampler"] == "rto" else _run_reuse_ugla)(case, ctx)
     elif case["kind"] == "rto":
         _run_rto(case, ctx)
